@@ -29,8 +29,12 @@ type traceResult struct {
 	// Open[id] .. Shut[id]: trace lines between which the harness listeners of a
 	// case can exist (from the worker's request that fetched the case to the
 	// BEGIN marker of the worker's following case, or the end of the trace)
-	Open      map[int]int
-	Shut      map[int]int
+	Open map[int]int
+	Shut map[int]int
+	// Own[mark]["STREAM/port"]: local ports (getsockname) of the sockets carrying
+	// that SO_MARK - the source ports of the case's own connections
+	Own       map[int]map[string]bool
+	LocalSeen int
 	BySyscall map[string]int
 	Marks     int // setsockopt(SO_MARK) calls seen
 	Sockets   int
@@ -63,7 +67,7 @@ func parseTrace(path string) (*traceResult, error) {
 		return nil, err
 	}
 	defer f.Close()
-	tr := &traceResult{Begins: map[int]int{}, Ends: map[int]int{}, BySyscall: map[string]int{}, Open: map[int]int{}, Shut: map[int]int{}}
+	tr := &traceResult{Begins: map[int]int{}, Ends: map[int]int{}, BySyscall: map[string]int{}, Open: map[int]int{}, Shut: map[int]int{}, Own: map[int]map[string]bool{}}
 	lastNext := map[string]int{} // worker -> line of its last NEXT marker
 	lastCase := map[string]int{} // worker -> case it ran last
 	type fdInfo struct {
@@ -71,6 +75,26 @@ func parseTrace(path string) (*traceResult, error) {
 		typ  string
 	}
 	fds := map[int]*fdInfo{}
+	pendingGSN := map[string]int{} // tid -> fd of an unfinished getsockname()
+	local := func(fd int, rest string) {
+		fi := fds[fd]
+		if fi == nil || fi.mark == 0 {
+			return
+		}
+		var port string
+		if m := reV4.FindStringSubmatch(rest); m != nil {
+			port = m[1]
+		} else if m := reV6.FindStringSubmatch(rest); m != nil {
+			port = m[1]
+		} else {
+			return
+		}
+		if tr.Own[fi.mark] == nil {
+			tr.Own[fi.mark] = map[string]bool{}
+		}
+		tr.Own[fi.mark][fi.typ+"/"+port] = true
+		tr.LocalSeen++
+	}
 	pendingSock := map[string]string{} // tid -> sock type of an unfinished socket()
 	active := map[int]bool{}
 	sc := bufio.NewScanner(f)
@@ -79,6 +103,12 @@ func parseTrace(path string) (*traceResult, error) {
 		tr.Lines++
 		line := sc.Text()
 		if m := reResumed.FindStringSubmatch(line); m != nil {
+			if m[2] == "getsockname" {
+				if fd, ok := pendingGSN[m[1]]; ok {
+					delete(pendingGSN, m[1])
+					local(fd, m[3])
+				}
+			}
 			if m[2] == "socket" {
 				typ, ok := pendingSock[m[1]]
 				delete(pendingSock, m[1])
@@ -112,6 +142,17 @@ func parseTrace(path string) (*traceResult, error) {
 					tr.Sockets++
 				}
 			}
+		case "getsockname":
+			fdm := reFD.FindStringSubmatch(args)
+			if fdm == nil {
+				continue
+			}
+			fd, _ := strconv.Atoi(fdm[1])
+			if strings.Contains(args, "<unfinished") {
+				pendingGSN[tid] = fd
+				continue
+			}
+			local(fd, args)
 		case "setsockopt":
 			if s := reMark.FindStringSubmatch(args); s != nil {
 				fd, _ := strconv.Atoi(s[1])
